@@ -139,6 +139,31 @@ def strip_type(p):
     return p, None
 
 
+import os as _os
+HAVOC_LOCALS = _os.environ.get("VERIF_NO_HAVOC") is None
+
+
+def refs_in(terms, depth=0, out=None):
+    """places referenced (("ref", place)) anywhere inside the given terms"""
+    if out is None:
+        out = set()
+    if depth > 12:
+        return out
+    for t in terms:
+        if not isinstance(t, tuple) or not t:
+            continue
+        if t[0] == "ref":
+            out.add(t[1])
+        elif t[0] in ("agg", "op"):
+            # not into ("app", ..): a call result cannot still hold the &mut borrow of a local
+            # that the code reads directly afterwards (borrow rules), so only operands that ARE
+            # references / closures / aggregates of them pass a borrow on
+            refs_in(t[2], depth + 1, out)
+        elif t[0] in ("proj", "disc"):
+            refs_in((t[1],), depth + 1, out)
+    return out
+
+
 class Path:
     def __init__(self):
         self.env = {}
@@ -147,9 +172,11 @@ class Path:
         self.ncalls = 0
         self.end = None
         self.trace = []
+        self.mutrefs = set()      # plain locals whose address was taken with &mut
 
     def clone(self):
         p = Path()
+        p.mutrefs = set(self.mutrefs)
         p.env = dict(self.env)
         p.conds = list(self.conds)
         p.events = list(self.events)
@@ -261,9 +288,12 @@ class Executor:
             return ("op", "cast:" + m.group(3), (self.operand(path, m.group(1)),))
         if r.startswith("copy ") or r.startswith("move ") or r.startswith("const "):
             return self.operand(path, r)
-        m = re.match(r"^&(?:mut |raw const |raw mut )?(.+)$", r)
+        m = re.match(r"^&(mut |raw const |raw mut )?(.+)$", r)
         if m:
-            return ("ref", self.resolve(path, m.group(1)))
+            tgt = self.resolve(path, m.group(2))
+            if m.group(1) in ("mut ", "raw mut ") and re.match(r"^_\d+$", tgt):
+                path.mutrefs.add(tgt)
+            return ("ref", tgt)
         m = re.match(r"^discriminant\((.+)\)$", r)
         if m:
             v = self.read_place(path, m.group(1))
@@ -400,6 +430,14 @@ class Executor:
                     r2 = self.on_call(path, fn.strip(), argv, res)
                     if r2 is not None:
                         res = r2
+                if HAVOC_LOCALS and path.mutrefs:
+                    # a callee may write through a &mut to a plain local that reaches it (directly
+                    # or inside a closure / aggregate operand): forget what is known about it
+                    for loc in refs_in(argv) & path.mutrefs:
+                        for k in [k for k in path.env if k == loc or re.match(
+                                r"^\(*%s(?![0-9])" % re.escape(loc), k)]:
+                            del path.env[k]
+                        path.env[loc] = ("s", "%s@%d" % (loc, path.ncalls))
                 if dst:
                     self.assign_local_or_place(path, dst, res)
                 bb = ret
